@@ -34,11 +34,11 @@ GOLIBS = "github.com/AdguardTeam/golibs"
 # the race detector; bubble: concurrent check (GOMAXPROCS=1 per worker).
 CHECKS = {
     "C08": dict(pkg="./sim/c08", race=False, quick=600000, thorough=30000000),
-    "C09": dict(pkg="./sim/c09", race=False, quick=2000000, thorough=200000000, checkptr=True, aslimit=True),
+    "C09": dict(pkg="./sim/c09", race=False, quick=4000000, thorough=200000000, checkptr=True, aslimit=True),
     "C10": dict(pkg="./sim/c10", race=True, quick=120000, thorough=6000000,
                 autoyield=dict(call="simPoint(%q, nil)", files=["cache/data.go"])),
-    "C11": dict(pkg="./sim/c11", race=False, quick=1500000, thorough=150000000),
-    "C15": dict(pkg="./sim/c15", race=False, quick=2000000, thorough=200000000),
+    "C11": dict(pkg="./sim/c11", race=False, quick=3000000, thorough=150000000),
+    "C15": dict(pkg="./sim/c15", race=False, quick=6000000, thorough=200000000),
     "C17": dict(pkg="./sim/c17", race=True, quick=120000, thorough=6000000,
                 autoyield=dict(call="simPoint(%q)", files=["syncutil/sema.go", "syncutil/onceconstructor.go"])),
     "C18": dict(pkg="./sim/c18", race=True, quick=200000, thorough=8000000,
